@@ -5,6 +5,7 @@ import GopatchModel.Walk
 import GopatchModel.MetaP
 import GopatchModel.Finder
 import GopatchModel.Intervals
+import GopatchModel.AstDiff
 import GopatchModel.Spec.RefFile
 open Gopatch
 
@@ -276,6 +277,35 @@ def handleComments (id : String) (xs : List Sx) : String :=
     | some (i, x) => s!" (respects 0 {i.s} {i.e} {x.s} {x.e})"
   s!"(res {id} (survivors{String.join (texts.map (fun t => " " ++ q t))}){resp})"
 
+/-- `(v "type" kind isNode pos end (groups...) isNil "payload" elemNode kids...)` -/
+partial def decodeAV : Sx → AD.AV
+  | .list (.atom "v" :: ty :: k :: n :: p :: e :: .list groups :: nl :: pl :: en :: kids) =>
+      let cms : List AD.CG := groups.map (fun g => match g with
+        | .list xs =>
+            let rec pairs : List Sx → List (Nat × Nat)
+              | a :: b :: rest => (a.asNat, b.asNat) :: pairs rest
+              | _ => []
+            pairs xs
+        | _ => [])
+      .mk ty.asStr k.asNat (n.asNat == 1) p.asNat e.asNat cms (nl.asNat == 1) pl.asStr (en.asNat == 1) (kids.map decodeAV)
+  | _ => .mk "?" 4 false 0 0 [] true "" false []
+
+/-- one application of `Snapshot.Diff`: the regions the model reports as changed (sorted by start, as the
+harness sorts the recorded calls), and whether the comment associations of the new snapshot agree -/
+def handleAstdiff (id : String) (xs : List Sx) : String :=
+  match Sx.field xs "from", Sx.field xs "to" with
+  | [f], [t] =>
+      let old := decodeAV f
+      let new := decodeAV t
+      let w := AD.diff old (AD.strip new)
+      let ch := w.ch.toArray.qsort (fun a b => a.pos < b.pos) |>.toList
+      let snap := match (AD.cmsDiff w.to new 0).1 with
+        | none => " (snap ok)"
+        | some k => s!" (snap differs {k})"
+      let bad := if w.bad then " (modeltrouble 1)" else ""
+      s!"(res {id} (changed{String.join (ch.map (fun r => s!" ({r.pos} {r.stop})"))}){snap}{bad})"
+  | _, _ => s!"(res {id} (bad-case))"
+
 def handleLine (sc : Option Schema) (line : String) : String :=
   match Sx.ofString line with
   | .list (.atom "case" :: id :: .atom "engine" :: xs) => handleEngine sc id.asStr xs
@@ -285,6 +315,7 @@ def handleLine (sc : Option Schema) (line : String) : String :=
   | .list (.atom "case" :: id :: .atom "front" :: xs) => handleFront id.asStr xs
   | .list (.atom "case" :: id :: .atom "augment" :: xs) => handleAugment id.asStr xs
   | .list (.atom "case" :: id :: .atom "comments" :: xs) => handleComments id.asStr xs
+  | .list (.atom "case" :: id :: .atom "astdiff" :: xs) => handleAstdiff id.asStr xs
   | .list (.atom "echo" :: [v]) => canonV (decodeV v)
   | _ => "(bad-op)"
 
